@@ -296,7 +296,13 @@ pub fn gen_request(g: &mut G, max_body: usize) -> ReqPlan {
     let params = (0..g.below(4)).map(|_| (word(g), word(g))).collect();
     let mut headers = Vec::new();
     for _ in 0..g.below(5) {
-        let name = match g.below(6) {
+        let name = match g.below(7) {
+            // a field the library has its own opinion about: the caller's value stays, except that a
+            // multipart body announces its own type (and boundary)
+            6 => {
+                g.probe("caller-sets-content-type");
+                "Content-Type".to_string()
+            }
             0 => "X-Custom".to_string(),
             1 => "x-custom".to_string(),
             2 => "Cookie".to_string(),
@@ -312,6 +318,11 @@ pub fn gen_request(g: &mut G, max_body: usize) -> ReqPlan {
             4 => vec![0xe9, b'-', 0xff, 0x80],
             _ => b"\"quoted\" (comment) <x@y>".to_vec(),
         };
+        if name == "Content-Type" {
+            let v = (*g.pick(&["application/json", "text/x-custom; charset=latin1", "application/x-whatever", "multipart/form-data; boundary=callers-own"])).as_bytes().to_vec();
+            headers.push((name, v, false));
+            continue;
+        }
         headers.push((name, value, g.chance(1, 3)));
     }
     let auth = match g.below(5) {
@@ -567,6 +578,10 @@ pub fn check_request_ex(
             model.retain(|(k, _)| *k != ln);
         }
         model.push((ln, v.clone()));
+    }
+    if matches!(plan.body, BodySpec::Multipart(_)) {
+        // checked by check_multipart: the form's own type and boundary replace the caller's
+        model.retain(|(k, _)| k != "content-type");
     }
     let mut names: Vec<String> = model.iter().map(|(k, _)| k.clone()).collect();
     names.sort();
